@@ -562,4 +562,23 @@ def written_sides(repo: Repo) -> RuleRun:
 
 written_sides.rule_id = "C10.WRITTEN-SIDES"
 
-RULES = [face_permutations, edge_map_rule, side_addressing, select_polarity, arguments_untouched, written_sides]
+def no_class_state(repo: Repo) -> RuleRun:
+    """Face permutations keep no state between calls or between faces: no class-level container is changed in place."""
+    from ..alias import class_state_rule
+
+    return class_state_rule(repo, PROP, "C10.NO-CLASS-STATE")
+
+
+no_class_state.rule_id = "C10.NO-CLASS-STATE"
+
+def affine_kinds(repo: Repo) -> RuleRun:
+    """'the corner closest to a position': distances in the face / operation addressing code are norms of differences of points -
+    no position used as a vector, no plain component sum."""
+    from ..affine import kinds_rule
+
+    return kinds_rule(repo, PROP, "C10.AFFINE-KINDS", ("construct.flat.face", "construct.operations", "util.tools"), floor=2)
+
+
+affine_kinds.rule_id = "C10.AFFINE-KINDS"
+
+RULES = [face_permutations, edge_map_rule, side_addressing, select_polarity, arguments_untouched, written_sides, no_class_state, affine_kinds]
